@@ -41,6 +41,7 @@ class FnSpec:
         self.tags = []
         self.origin = None        # spec file
         self.noprobe = False
+        self.attrs = []
 
 
 def load_specs(spec_dir=None):
@@ -124,6 +125,8 @@ def load_specs(spec_dir=None):
                     cur.assumed = v
                 elif k == 'tags':
                     cur.tags = v.split()
+                elif k == 'attrs':
+                    cur.attrs = v.split()
                 elif k == 'noprobe':
                     cur.noprobe = True
                 else:
@@ -392,7 +395,8 @@ def emit_fn(spec, mode, probe=False):
     # apply edits back to front; stable for equal positions (head text before probe)
     for pos, text in sorted(edits, key=lambda e: -e[0]):
         body = body[:pos] + text + body[pos:]
-    txt = sig + '\n' + contract + '    ' + body + '\n'
+    pre_attr = ''.join('    #[verifier::%s]\n' % a for a in spec.attrs)
+    txt = pre_attr + sig + '\n' + contract + '    ' + body + '\n'
     em.rules = rw.log
     em.clauses = count_clauses(contract, spec.loop_ann, spec.inserts)
     em.clauses += [('runtime-assert', d) for (r, d) in rw.log if r == 'R0b']
